@@ -51,7 +51,11 @@ Close(bytes, ins, jd, seen, frontier) ==
     ELSE LET new == UNION {Succs(bytes, ins, jd, IndexOf(ins, o)) : o \in frontier} \ seen
          IN Close(bytes, ins, jd, seen \cup new, new)
 
-MayReach(bytes) == IF Len(bytes) = 0 THEN {} ELSE Close(bytes, Instrs(bytes), JumpDests(bytes), {0}, {0})
+(* the JUMPDEST bytes at instruction boundaries (the same set as DisasmLib!JumpDests, computed from the walk: a *)
+(* LET-bound disassembly would be evaluated again at every use, which is cubic in the code length)            *)
+DestsOf(bytes, ins) == {ins[k] : k \in {j \in 1..Len(ins) : bytes[ins[j] + 1] = JUMPDEST}}
+MayReachFrom(bytes, ins) == Close(bytes, ins, DestsOf(bytes, ins), {0}, {0})
+MayReach(bytes) == IF Len(bytes) = 0 THEN {} ELSE MayReachFrom(bytes, Instrs(bytes))
 
 (* The tool steps through the immediate bytes of a PUSH it executed as no-ops: those offsets belong to the PUSH. *)
 WithImmediates(bytes, R) == R \cup {x \in 0..(Len(bytes) - 1) : \E o \in R : x > o /\ x <= o + PushLen(bytes[o + 1])}
